@@ -378,7 +378,7 @@ func (x *Exec) trIndex(t *CIdx, env *Env) Val {
 	switch bt := under(b.T).(type) {
 	case *types.Slice:
 		key, srt := x.elemKey(bt.Elem())
-		return Val{T: bt.Elem(), S: sel(sel(x.heapGet(env.cur, key, srt), app("s_reg", b.S)), app("sidx", b.S, i.S))}
+		return Val{T: bt.Elem(), S: sel(sel(x.heapGet(env.cur, key, srt), app("s_reg", b.S)), app("sidx", app("s_off", b.S), i.S))}
 	case *types.Map:
 		_, _, vk, vs := x.mapKeys(bt)
 		if x.so.sortOf(bt.Elem()) == "Unit" {
